@@ -32,7 +32,8 @@ def machine(steps):
 def gen(rng, count, quick, sin_steps=None):
     recs = []
     for k in range(count):
-        n = rng.choice([32, 48] if quick else [32, 48, 64])
+        # odd grid sizes too: the table builder and the map application must agree on the grid centre n/2
+        n = rng.choice([32, 33, 48] if quick else [32, 33, 47, 48, 64, 65])
         it = rng.choice([2, 3, 4])
         lin = k % 3 != 2
         if sin_steps is not None:
